@@ -448,3 +448,44 @@ __CPROVER_ensures(OLD(g_ctx_signal) == 0 ==> g_raised_signal == signal_number)
 ''')],
     harness='  int32_t s; on_alarm(s);', dropped=['the atomic of the handler context as a plain int (the handler runs on one thread)'], trusted=['std::signal / std::raise'], min_obligations=4)
 UNITS += [on_alarm]
+
+# ------------------------------------------------------------------------------------------ detail::init_signal_handler (POSIX overload)
+IH_PRELUDE = r'''
+#define SIGALRM_ 14
+/* the list of catchable signals: one arbitrary tracked entry at index g_p, every other entry is some other signal number */
+typedef struct SigVec { size_t n; size_t g_p; int tracked; } SigVec;
+SigVec g_sigs; int nondet_int(void);
+static inline size_t SV_size(SigVec* v) { return v->n; }
+static inline int SV_get(SigVec* v, size_t i) { if (i == v->g_p) return v->tracked; return nondet_int(); }
+bool g_tracked_installed, g_alarm_installed, g_install_fails; size_t g_installs; bool g_other_is_alarm;
+/* std::signal(sig, on_signal<...>) / std::signal(SIGALRM, on_alarm): true = SIG_ERR */
+bool INSTALL_ON_SIGNAL(int sig) __CPROVER_assigns(g_installs, g_tracked_installed) __CPROVER_ensures(g_installs == OLD(g_installs) + 1 && RET == g_install_fails && g_tracked_installed == (OLD(g_tracked_installed) || (sig == g_sigs.tracked && !g_install_fails)));
+bool INSTALL_ON_ALARM(void) __CPROVER_assigns(g_alarm_installed) __CPROVER_ensures(RET == g_install_fails && g_alarm_installed == !g_install_fails);
+'''
+init_handler = dict(
+    name='SIG.init_handler', primary='C07', props={'C07'}, kind='S',
+    desc='detail::init_signal_handler: every configured signal gets the logging handler, SIGALRM gets the timeout handler; SIGALRM in the list or a failing installation is an error, never a silently missing handler',
+    structs=[], prelude=IH_PRELUDE, enforce='init_signal_handler', replace=['INSTALL_ON_SIGNAL', 'INSTALL_ON_ALARM'], loopcontracts=True,
+    funcs=[dict(src=dict(header=SH, cls=None, name='init_signal_handler', nth=0), src_params=['catchable_signals'], cfun='init_signal_handler', sig='void init_signal_handler(void)', member_fields=[], exceptions=True, may_throw=[],
+                range_for=[(r'g_sigs', 'SV_size', 'SV_get', 'int')],
+                pre_rules=[(r'\bcatchable_signals\b', 'g_sigs'), (r'\bSIGALRM\b', 'SIGALRM_'),
+                           (r'std::signal\(catchable_signal,\s*on_signal<TFrontendOptions>\)\s*==\s*SIG_ERR', 'INSTALL_ON_SIGNAL(catchable_signal)'),
+                           (r'std::signal\(SIGALRM_,\s*on_alarm\)\s*==\s*SIG_ERR', 'INSTALL_ON_ALARM()'),
+                           (r'throw\s*\(?\s*QuillError\s*\{.*?\}\s*\)?\s*;', 'throw(QuillError{"x"});')],
+                loops={0: r'''
+__CPROVER_assigns(__i0, g_installs, g_tracked_installed, g_exc)
+__CPROVER_loop_invariant(__i0 <= g_sigs.n && g_exc == 0 && (g_installs > 0 ==> !g_install_fails))
+__CPROVER_loop_invariant((__i0 > g_sigs.g_p) ==> (g_tracked_installed && g_sigs.tracked != SIGALRM_))
+__CPROVER_decreases(g_sigs.n - __i0)
+'''},
+                contract=r'''
+__CPROVER_requires(g_exc == 0 && g_installs == 0 && !g_tracked_installed && !g_alarm_installed && g_sigs.n < 1000)
+__CPROVER_assigns(g_installs, g_tracked_installed, g_alarm_installed, g_exc)
+__CPROVER_ensures((g_exc == 0 && g_sigs.g_p < g_sigs.n) ==> (g_tracked_installed && g_sigs.tracked != SIGALRM_)) /*@ C07 "after a successful start every configured signal has the logging handler installed" */
+__CPROVER_ensures(g_exc == 0 ==> g_alarm_installed) /*@ C07 "after a successful start SIGALRM has the timeout handler" */
+__CPROVER_ensures((g_sigs.g_p < g_sigs.n && g_sigs.tracked == SIGALRM_) ==> g_exc == EXC_STD) /*@ C07 "SIGALRM in the list of handled signals is rejected" */
+__CPROVER_ensures(g_install_fails ==> g_exc == EXC_STD) /*@ C07 "a handler that cannot be installed is an error, not a silently unhandled signal" */
+''')],
+    harness='  init_signal_handler();', dropped=['std::vector<int> as {size, one tracked entry}; std::signal as two install stubs', 'text of the error messages'],
+    trusted=['std::signal'], min_obligations=10)
+UNITS += [init_handler]
